@@ -262,6 +262,8 @@ class GMRES:
                 self.x.iadd_prefactor_other(self.y[i], self.qs[i])
             if not converged:
                 self.reset()
+                if self.total_error[-1][0] < self.res:
+                    break  # as for the initial guess in the beginning: nothing left to do (and r_norm might be 0)
             else:
                 break
 
